@@ -22,12 +22,18 @@ var quiet = func() logrus.FieldLogger {
 	return l
 }()
 
+// cleanupDirs: directories of process-lifetime fixtures, removed when the test binary exits
+var cleanupDirs []string
+
 func TestMain(m *testing.M) {
 	gin.SetMode(gin.ReleaseMode)
 	gin.DefaultWriter = ioutil.Discard
 	gin.DefaultErrorWriter = ioutil.Discard
 	code := m.Run()
 	vkit.FlushAll()
+	for _, d := range cleanupDirs {
+		_ = os.RemoveAll(d)
+	}
 	os.Exit(code)
 }
 
